@@ -340,8 +340,30 @@ def check_deferred(n, raise_mask, defer_mask, loop, child_raise_mask=0):
             L.core.deferred(child, i)
         if raise_mask >> i & 1:
             raise RuntimeError("fn %d raises" % i)
+    import functools
+
+    class Callable_(object):
+        def __init__(self, i):
+            self.i = i
+
+        def __call__(self):
+            fn(self.i)
+
+        def method(self):
+            fn(self.i)
     for i in range(n):
-        L.core.deferred(fn, i)
+        # every kind of callable an application may hand over: function + argument, partial, callable object, bound method, lambda
+        kind_ = (i + n + raise_mask) % 5
+        if kind_ == 0:
+            L.core.deferred(fn, i)
+        elif kind_ == 1:
+            L.core.deferred(functools.partial(fn, i))
+        elif kind_ == 2:
+            L.core.deferred(Callable_(i))
+        elif kind_ == 3:
+            L.core.deferred(Callable_(i).method)
+        else:
+            L.core.deferred(lambda i=i: fn(i))
     try:
         advance(loop, 1.0)
     except Exception as err:
